@@ -99,6 +99,8 @@ def gen_cases(ctx, max_o, max_s, n_rand, rand_o, rand_s):
         S = R.rand_shape(rng, rng.randint(1, rand_s))
         O = R.rand_otree(rng, rng.randint(1, rand_o), R.shape_leaves(S))
         cases.append({"S": S, "O": O, "costs": R.rand_costs(rng, plain=True)})
+        if rng.random() < 0.2:   # an LCA structure was built on the same species tree while children were in another order
+            cases[-1]["prime_lca"] = True
         if rng.random() < 0.3:   # trees decorated with branch lengths / supports; ancestors without names (API-level inputs)
             cases[-1]["dist"] = rng.randrange(1 << 30)
         if rng.random() < 0.25:
